@@ -128,7 +128,9 @@ func (k *StoreKind) buildInto(f *Fixture, t *abs.Tree, at abs.Path, m map[string
 			keys := t.OrdAt(p)
 			// map-backed lists hold single-key lists only (documented limitation of the
 			// library's map handlers): compound-key lists are laid out as slices
-			if k.ListAs == "slice" || len(n.Keys) > 1 {
+			// (a binary key is a byte slice, which no Go map can be keyed by: slices as well)
+			binKey := len(n.Keys) == 1 && f.DS.Node(append(append([]string{}, n.SP...), n.Keys[0])).Type == "binary"
+			if k.ListAs == "slice" || len(n.Keys) > 1 || binKey {
 				l := []map[string]any{}
 				for _, key := range keys {
 					e := map[string]any{}
